@@ -35,6 +35,29 @@ def dup_index_frame(order, s):
     return f
 
 
+def loose_rows(order, s, kind):
+    """the batch as a container of Python numbers (records decoded from JSON / CSV: ints where the value is whole, floats elsewhere) - an
+    object-typed ndarray, a DataFrame with object columns, or nested lists; order "orig" keeps the rows as they are"""
+    import pandas as pd
+    inner = pre_of(order, s) if order != "orig" else (lambda x, t: np.array(x, dtype=float))
+
+    def f(x, t):
+        rows = [[int(v) if float(v).is_integer() else float(v) for v in r] for r in inner(x, t).tolist()]
+        if kind == "lists":
+            return rows
+        o = np.empty((len(rows), len(rows[0])), dtype=object)
+        for i, r in enumerate(rows):
+            for j, v in enumerate(r):
+                o[i, j] = v
+        return o if kind == "objarray" else pd.DataFrame(o, columns=["c%d" % j for j in range(o.shape[1])])
+    return f
+
+
+def halved(items, rng):
+    """integer-valued batches in which a share of the rows is moved by one half: whole-number rows and fractional rows side by side"""
+    return [[[v + 0.5 for v in r] if rng.random() < 0.5 else list(r) for r in b] for b in items]
+
+
 def pre_of(order, s):
     return perm_pre(s) if order == "perm" else sort_pre(order == "desc")
 
@@ -102,6 +125,19 @@ def run(ctx):
                            feed_b=lambda d, x, tt, pb=pb: d.update(pb(x, tt)), pre_b=pb, restrict=(lambda nums: nums) if fam != "NNDVI" else None,
                            extra={"order": "dupindex"})
             full.append(t)
+    # loosely typed containers (object arrays / object frames / nested lists of Python ints and floats): what a row IS does not depend on which row leads
+    for fam in ("HDDDM", "CDBD", "KdqTreeBatch"):
+        for i in range(3 if q else 12):
+            p = P.default_params(fam, rng)
+            if fam in ("HDDDM", "CDBD"):
+                p["detect_batch"] = 3
+            items = halved(P.gen_items(fam, rng, rng.randint(6, 9)), rng)
+            s = rng.randrange(10 ** 6)
+            kind, order = ("objarray", "objframe", "lists")[i % 3], ("asc", "desc", "perm")[(i // 3) % 3]
+            pa, pb = loose_rows("orig", s, kind), loose_rows(order, s, kind)
+            full.append(P.two_runs(fam, p, p, items, s, "Equal", feed_a=lambda d, x, tt, pa=pa: d.update(pa(x, tt)), pre_a=pa,
+                                   feed_b=lambda d, x, tt, pb=pb: d.update(pb(x, tt)), pre_b=pb, restrict=lambda nums: nums,
+                                   extra={"order": "loose:%s:%s" % (kind, order)}))
     rep = lambda ts: (lambda i: {"fam": ts[i]["fam"], "pa": ts[i]["pa"], "items": ts[i]["items"], "seed": ts[i]["seed"], "rel": ts[i]["cfg"]["rel"], "order": ts[i].get("order", "perm")})
     # NNDVI's tag is a digest of the retained reference IN ROW ORDER: blank it (the permuted run retains permuted rows)
     for t in full:
@@ -125,6 +161,13 @@ def replay(ctx, bundle):
         if r["fam"] == "NNDVI":
             for e in t["ev"]:
                 e["a"]["tag"] = e["b"]["tag"] = ""
+        ctx.validate("Product", [t], "replay", replay=lambda i: r)
+        return ctx.finish()
+    if r.get("order", "").startswith("loose:"):
+        _, kind, order = r["order"].split(":")
+        pa, pb = loose_rows("orig", r["seed"], kind), loose_rows(order, r["seed"], kind)
+        t = P.two_runs(r["fam"], r["pa"], r["pa"], r["items"], r["seed"], "Equal", feed_a=lambda d, x, tt: d.update(pa(x, tt)), pre_a=pa,
+                       feed_b=lambda d, x, tt: d.update(pb(x, tt)), pre_b=pb, restrict=lambda nums: nums)
         ctx.validate("Product", [t], "replay", replay=lambda i: r)
         return ctx.finish()
     pre = pre_of(r.get("order", "perm"), r["seed"])
